@@ -38,6 +38,25 @@ pub struct Case {
     /// format options (compress, items_per_slot, block_size, zooms, pass mode) — equal on both sides
     pub fmt: Opts,
     pub variant: Variant,
+    /// Some: the same comparison through the command-line tools (`fmt` / `variant` unused)
+    #[serde(default)]
+    pub cli: Option<CliCfg>,
+}
+
+#[derive(Serialize, Deserialize, Clone, Debug)]
+pub struct CliCfg {
+    // format flags, equal on both sides
+    pub single_pass: bool,
+    pub uncompressed: bool,
+    pub block_size: Option<u32>,
+    pub zooms: Option<Vec<u32>>,
+    // variant side
+    pub threads: u8,
+    pub parallel: u8, // 0 auto, 1 yes, 2 no
+    pub inmemory: bool,
+    pub back_threads: u8,
+    pub back_inmemory: bool,
+    pub delay: Option<(u32, u8)>,
 }
 
 pub struct C11;
@@ -88,7 +107,8 @@ impl Prop for C11 {
          variant = generated (runtime flavour and 1..16 threads, channel size {0,1,100}, inmemory {f,t}, one of four source kinds incl. the per-chromosome parallel one, a seeded delay schedule for the cfg(bigtools_verif) hand-off points); \
          oracle: the two destinations hold identical bytes (nothing about the bytes themselves is asserted). Then the variant file is converted to text by the single-threaded and by the multi-threaded converter \
          (2..16 threads, both buffering modes, delays on): identical text. \
-         non-trivial = >= 3 chromosomes AND multi-thread runtime AND delays on AND the hook counters saw both a switch before the producer's first write and a switch after data had been staged (while the producer was still writing, or after it had finished); distinct = distinct case JSON"
+         One case in six runs the same comparison through the real binaries: bedgraphtobigwig / bedtobigbed `-t 1 --parallel=no` against `-t 2..16 --parallel=auto|yes|no [--inmemory]` under BIGTOOLS_VERIF_DELAY with equal format flags (identical bytes), then bigwigtobedgraph / bigbedtobed `-t 1` against `-t 2..16 [--inmemory]` (identical text). \
+         non-trivial = (command-line cases: >= 3 chromosomes, --parallel=yes, delays on) >= 3 chromosomes AND multi-thread runtime AND delays on AND the hook counters saw both a switch before the producer's first write and a switch after data had been staged (while the producer was still writing, or after it had finished); distinct = distinct case JSON"
             .into()
     }
     fn technique() -> String {
@@ -135,7 +155,7 @@ impl Prop for C11 {
                 }
                 let bases: u64 = input.chroms.iter().map(|c| c.vals.iter().map(|v| (v.e - v.s) as u64).sum::<u64>()).sum();
                 gen::tame_zooms(bases, input.n_items() as u64, &mut o, 1500);
-                Case { base: Base::Bw(input), fmt: o, variant: v }
+                Case { base: Base::Bw(input), fmt: o, variant: v, cli: None }
             });
         let bb = (gen::opts(false), variant)
             .prop_flat_map(move |(o, v)| (gen::bb_input(12, mi, o.sorted_chroms, true), Just(o), Just(v)))
@@ -146,11 +166,46 @@ impl Prop for C11 {
                 input.autosql = None;
                 let bases: u64 = input.chroms.iter().map(|c| c.entries.iter().map(|v| (v.e - v.s) as u64).sum::<u64>()).sum();
                 gen::tame_zooms(bases, input.n_items() as u64, &mut o, 1500);
-                Case { base: Base::Bb(input), fmt: o, variant: v }
+                Case { base: Base::Bb(input), fmt: o, variant: v, cli: None }
             });
-        prop_oneof![bw, bb].boxed()
+        let clicfg = (
+            (any::<bool>(), any::<bool>(), proptest::option::of(select(vec![2u32, 3, 16, 256])), proptest::option::of(proptest::sample::subsequence(vec![5u32, 10, 40, 160, 1000], 1..=3))),
+            (2u8..=16, 0u8..3, any::<bool>(), 2u8..=16, any::<bool>(), proptest::option::weighted(0.8, (any::<u32>(), 30u8..=100))),
+        )
+            .prop_map(|((single_pass, uncompressed, block_size, zooms), (threads, parallel, inmemory, back_threads, back_inmemory, delay))| CliCfg {
+                single_pass,
+                uncompressed,
+                block_size,
+                zooms,
+                threads,
+                parallel,
+                inmemory,
+                back_threads,
+                back_inmemory,
+                delay,
+            });
+        let any_variant = Variant {
+            threads: 0,
+            channel_size: 100,
+            inmemory: true,
+            source: SourceKind::Infallible,
+            delay_seed: 0,
+            intensity: 0,
+            conv_threads: 2,
+            conv_inmemory: true,
+            bias_consumer: false,
+        };
+        let v1 = any_variant.clone();
+        let cli_bw = (super::c16::canonical_bw(8, 60), clicfg.clone())
+            .prop_map(move |(b, c)| Case { base: Base::Bw(b), fmt: Opts::default(), variant: v1.clone(), cli: Some(c) });
+        let cli_bb = (super::c16::canonical_bb(8, 60), clicfg)
+            .prop_map(move |(b, c)| Case { base: Base::Bb(b), fmt: Opts::default(), variant: any_variant.clone(), cli: Some(c) });
+        prop_oneof![5 => bw, 5 => bb, 1 => cli_bw, 1 => cli_bb].boxed()
     }
     fn check(case: &Case, obs: &mut Obs) -> Result<(), String> {
+        if let Some(cfg) = &case.cli {
+            return check_cli(case, cfg, obs);
+        }
         let v = &case.variant;
         let mut ref_o = case.fmt.clone();
         ref_o.threads = 0;
@@ -263,4 +318,136 @@ impl Prop for C11 {
         let _ = MemFile::new(vec![]);
         Ok(())
     }
+}
+
+/// reference `-t 1 --parallel=no` against a generated thread / parallel / buffering configuration
+/// of the real converters, equal format flags on both sides: identical bytes; then the file back to
+/// text with `-t 1` and with `-t N`: identical text
+fn check_cli(case: &Case, cfg: &CliCfg, obs: &mut Obs) -> Result<(), String> {
+    use super::cli::{bindir, run_tool, tmpdir};
+    if bindir().is_none() {
+        obs.label("tool-binaries-missing");
+        return Err("the command-line binaries are not built (VERIF_BIN): ./check builds them".into());
+    }
+    let dir = tmpdir("c11_")?;
+    let p = |n: &str| dir.path().join(n).to_string_lossy().to_string();
+    let is_bw = matches!(case.base, Base::Bw(_));
+    let (text, sizes, nchroms): (String, String, usize) = match &case.base {
+        Base::Bw(i) => (
+            drive::bw_text(&drive::bw_items(i)).0,
+            i.chroms.iter().map(|c| format!("{}\t{}\n", c.name, c.size)).collect(),
+            i.chroms.len(),
+        ),
+        Base::Bb(i) => (
+            drive::bb_text(&drive::bb_items(i)).0,
+            i.chroms.iter().map(|c| format!("{}\t{}\n", c.name, c.size)).collect(),
+            i.chroms.len(),
+        ),
+    };
+    std::fs::write(p("in.txt"), &text).map_err(|e| e.to_string())?;
+    std::fs::write(p("sizes"), &sizes).map_err(|e| e.to_string())?;
+    let mut fmt: Vec<String> = vec![];
+    if cfg.single_pass {
+        fmt.push("--single-pass".into());
+    }
+    if cfg.uncompressed {
+        fmt.push("--uncompressed".into());
+    }
+    if let Some(b) = cfg.block_size {
+        fmt.push(format!("--block-size={}", b));
+    }
+    if let Some(z) = &cfg.zooms {
+        fmt.push(format!("--zooms={}", z.iter().map(|x| x.to_string()).collect::<Vec<_>>().join(",")));
+    }
+    let par = ["auto", "yes", "no"][cfg.parallel as usize % 3];
+    obs.label("cli");
+    obs.label(&format!("cli-parallel={}", par));
+    obs.label(&format!("chroms={}", nchroms.min(12)));
+    obs.label(if is_bw { "bigwig" } else { "bigbed" });
+    obs.label_if(cfg.delay.is_some(), "delays-on");
+    let env: Vec<(String, String)> = match cfg.delay {
+        Some((s, i)) => vec![("BIGTOOLS_VERIF_DELAY".to_string(), format!("{}:{}", s, i))],
+        None => vec![],
+    };
+    let fwd = if is_bw { "bedgraphtobigwig" } else { "bedtobigbed" };
+    let mut a1: Vec<String> = vec![p("in.txt"), p("sizes"), p("ref.out"), "-t".into(), "1".into(), "--parallel=no".into()];
+    a1.extend(fmt.iter().cloned());
+    let r1 = run_tool(fwd, &a1, &[], 120)?;
+    if r1.timed_out {
+        return Err(format!("{} {:?} did not finish in 120 s", fwd, &a1[3..]));
+    }
+    if r1.code != Some(0) {
+        obs.label("writer-refused");
+        obs.notes.push(format!("{} refused the generated text: {}", fwd, r1.stderr.lines().next().unwrap_or("")));
+        return Ok(());
+    }
+    let mut a2: Vec<String> = vec![p("in.txt"), p("sizes"), p("var.out"), "-t".into(), cfg.threads.to_string(), format!("--parallel={}", par)];
+    if cfg.inmemory {
+        a2.push("--inmemory".into());
+    }
+    a2.extend(fmt.iter().cloned());
+    let r2 = run_tool(fwd, &a2, &env, 120)?;
+    if r2.timed_out {
+        return Err(format!("{} {:?} did not finish in 120 s", fwd, &a2[3..]));
+    }
+    if r2.code != Some(0) {
+        return Err(format!(
+            "{} wrote the file with -t 1 --parallel=no but failed with {:?} (status {:?}): {}",
+            fwd,
+            &a2[3..],
+            r2.code,
+            r2.stderr.lines().next().unwrap_or("")
+        ));
+    }
+    let a = std::fs::read(p("ref.out")).map_err(|e| format!("reference output unreadable: {}", e))?;
+    let b = std::fs::read(p("var.out")).map_err(|e| format!("variant output unreadable: {}", e))?;
+    obs.evals += 1;
+    if a != b {
+        return Err(format!(
+            "{}: output bytes differ between `-t 1 --parallel=no` and {:?} (same format flags {:?}): {} vs {} bytes, first difference at offset {}",
+            fwd,
+            &a2[3..],
+            fmt,
+            a.len(),
+            b.len(),
+            first_diff(&a, &b)
+        ));
+    }
+    let back = if is_bw { "bigwigtobedgraph" } else { "bigbedtobed" };
+    let b1: Vec<String> = vec![p("var.out"), p("single.txt"), "-t".into(), "1".into()];
+    let mut b2: Vec<String> = vec![p("var.out"), p("multi.txt"), "-t".into(), cfg.back_threads.to_string()];
+    if cfg.back_inmemory {
+        b2.push("--inmemory".into());
+    }
+    let s1 = run_tool(back, &b1, &[], 120)?;
+    let s2 = run_tool(back, &b2, &env, 120)?;
+    if s1.timed_out || s2.timed_out {
+        return Err(format!("{} did not finish in 120 s ({:?})", back, &b2[2..]));
+    }
+    if s1.code != Some(0) || s2.code != Some(0) {
+        return Err(format!(
+            "{} failed on a file the writer produced: -t 1 status {:?}, {:?} status {:?}: {} {}",
+            back,
+            s1.code,
+            &b2[2..],
+            s2.code,
+            s1.stderr.lines().next().unwrap_or(""),
+            s2.stderr.lines().next().unwrap_or("")
+        ));
+    }
+    let ts = std::fs::read(p("single.txt")).map_err(|e| e.to_string())?;
+    let tm = std::fs::read(p("multi.txt")).map_err(|e| e.to_string())?;
+    obs.evals += 1;
+    if ts != tm {
+        return Err(format!(
+            "{} {:?} emits different text than -t 1: {} vs {} bytes, first difference at offset {}",
+            back,
+            &b2[2..],
+            tm.len(),
+            ts.len(),
+            first_diff(&ts, &tm)
+        ));
+    }
+    obs.nontrivial = nchroms >= 3 && cfg.delay.is_some() && cfg.parallel % 3 == 1;
+    Ok(())
 }
